@@ -333,20 +333,32 @@ class InterfaceBase(NameAndModuleComparisonMixin, SpecificationBasePy):
             self._v_cached_hash = hash((self.__name__, self.__module__))
         return self._v_cached_hash
 
-    def __eq__(self, other):
-        c = self._compare(other)
-        if c is NotImplemented:
-            return c
-        return c == 0
-
-    def __ne__(self, other):
+    def _equals(self, other):
+        # Equality must not go through the ordering of ``_compare``: names
+        # that are equal or not may still be unorderable (``None`` against a
+        # string), and ``==`` must not raise then. The C implementation
+        # answers those comparisons, too.
         if other is self:
+            return True
+
+        if other is None:
             return False
 
-        c = self._compare(other)
+        try:
+            n2 = (other.__name__, other.__module__)
+        except AttributeError:
+            return NotImplemented
+
+        return (self.__name__, self.__module__) == n2
+
+    def __eq__(self, other):
+        return self._equals(other)
+
+    def __ne__(self, other):
+        c = self._equals(other)
         if c is NotImplemented:
             return c
-        return c != 0
+        return not c
 
 
 adapter_hooks = _use_c_impl([], 'adapter_hooks')
